@@ -6,6 +6,7 @@ import hashlib
 import json
 import os
 import random
+import re
 import shutil
 import sys
 import tempfile
@@ -54,7 +55,11 @@ class Findings(object):
 
     def lookup(self, prop, key):
         for e in self.entries:
-            if e["property"] == prop and e["key"] == key:
+            if e["property"] != prop:
+                continue
+            if e.get("key") == key:
+                return e
+            if e.get("key_regex") and re.fullmatch(e["key_regex"], key):
                 return e
         return None
 
@@ -90,7 +95,7 @@ class Ctx(object):
         self.assumptions = []
         self._distinct = set()
         self._scratch = None
-        self.max_violation_lines = 12
+        self.max_violation_lines = int(os.environ.get("VT_MAXV", "12"))
         self.workers = int(os.environ.get("VT_WORKERS", "0")) or min(16, os.cpu_count() or 4)
 
     # ---- scratch ----------------------------------------------------
@@ -150,7 +155,8 @@ class Ctx(object):
         """
         e = self.findings.lookup(self.prop, key)
         if e is not None:
-            self.known_hit[key] = self.known_hit.get(key, 0) + 1
+            fid = e.get("key") or e.get("key_regex")
+            self.known_hit[fid] = self.known_hit.get(fid, 0) + 1
             return False
         for k, _, _ in self.violations:
             if k == key:
@@ -197,13 +203,15 @@ class Ctx(object):
                 json.dump(ev, fp, indent=1, sort_keys=True, default=repr)
                 fp.write("\n")
             os.replace(tmp, os.path.join(edir, "%s.json" % self.prop))
-        for key in sorted(self.known_hit):
-            e = self.findings.lookup(self.prop, key)
-            print("KNOWN-FINDING: property=%s %s [%d cases]" % (self.prop, e["what"], self.known_hit[key]))
-        # A listed finding that no longer reproduces is only reported, never an alarm.
         for e in self.findings.entries:
-            if e["property"] == self.prop and e["key"] not in self.known_hit and e.get("tier", "quick") in ("quick", self.tier) and not self.replay:
-                print("note: listed finding not reproduced in this run: %s" % e["key"])
+            fid = e.get("key") or e.get("key_regex")
+            if e["property"] != self.prop:
+                continue
+            if fid in self.known_hit:
+                print("KNOWN-FINDING: property=%s %s [%d cases]" % (self.prop, e["what"], self.known_hit[fid]))
+            elif e.get("tier", "quick") in ("quick", self.tier) and not self.replay:
+                # A listed finding that no longer reproduces is only reported, never an alarm.
+                print("note: listed finding not reproduced in this run: %s" % fid)
         shown = 0
         for key, what, path in self.violations:
             if path is None:
